@@ -2,6 +2,9 @@ import Xp.Proofs.C01PT
 import Xp.Proofs.C01Quiet
 import Xp.Proofs.C01QuietPT
 import Xp.Proofs.C01Cache
+import Xp.Proofs.C01Probe
+import Xp.Proofs.C01Stale
+import Xp.Gen.C01Skel
 /-
 C01 — composed resources are never leaked or duplicated, whatever fails mid-reconcile.
 
@@ -228,6 +231,238 @@ theorem quiescent_pt (s : St) (tmpl : List Desired) (names : List String) (h : S
     run sem Plan.allOk 0 (reconcile (.pt tmpl fresh ver)) s = (s, some .success) :=
   QuietPT.quiescent_pt h fresh ver hv hcached
 
+/-! ### the name generator's availability loop (`names.nameGenerator.GenerateName`)
+
+`reconcileT tries` is the reconcile whose name generator probes up to `tries` candidates through the
+cache before it gives up (Model/C01.lean `probeName`); the driver runs `reconcileT maxTries`, and
+`skeleton_generate_name` ties `maxTries` to the `maxTries := 10` of the source. Every theorem above
+is re-stated for EVERY number of tries; `reconcile` is the instance with one try. What is left of
+the name oracle as a hypothesis is `FreshAvoids`: no candidate is the name of an object that exists
+but is missing from the cache — that a generated name is free in the CACHE is proved
+(`generated_name_free_in_cache`), that it is free in the store follows under `FreshAvoids`
+(`generated_name_free_unless_missed`). -/
+
+/-- the reconcile of the theorems above = one try -/
+theorem reconcileT_one (m : Mode) : reconcileT 1 m = reconcile m := reconcileT_one' m
+
+theorem safe_reconcileT {s : St} (hg : Good s) (tries : Nat) (m : Mode) (hm : ModeOK s.miss m) :
+    Safe sem Good (reconcileT tries m) s := by
+  cases m with
+  | fn out ch => exact safe_reconcileT_fn hg tries out ch hm.1 hm.2.1 hm.2.2
+  | pt tmpl fresh ver => exact safe_reconcileT_pt hg tries tmpl fresh ver hm.1 hm.2
+
+/-- **The invariant at every instant, the name generator retrying.** `invariant_every_instant` for
+every bound `tries` on the generator's availability loop (the code: 10): after any prefix of the API
+calls of a reconcile — the probes of the loop included — under any fault plan, whatever candidates
+the generator draws (as long as none is the name of an object missing from the cache), however many
+of them are taken by objects the cache shows. -/
+theorem invariant_every_instant_retry (tries : Nat) (s : St) (hg : Good s) (m : Mode) (hm : ModeOK s.miss m) (plan : Plan) :
+    ∀ s' ∈ reach sem plan 0 (reconcileT tries m) s, Good s' :=
+  reach_safe sem Good plan 0 (reconcileT tries m) s hg (safe_reconcileT hg tries m hm)
+
+/-- NoLeak and at-most-one-per-name, spelled out, for every number of tries and every set of cache misses -/
+theorem noLeak_and_unique_every_instant_retry (tries : Nat) (s : St) (hg : Good s) (miss : List Ref)
+    (m : Mode) (hm : ModeOK miss m) (plan : Plan) :
+    ∀ s' ∈ reach sem plan 0 (reconcileT tries m) { s with miss := miss },
+      (∀ o ∈ s'.objs, o.ctrl = .xr → o.deleting = false → (⟨o.kind, o.name⟩ : Ref) ∈ s'.refs) ∧
+      (∀ o1 ∈ s'.objs, ∀ o2 ∈ s'.objs, o1.ctrl = .xr → o1.deleting = false → o2.ctrl = .xr → o2.deleting = false →
+        o1.annot = o2.annot → o1.annot ≠ "" → o1 = o2) := by
+  intro s' hs'
+  have hg' := invariant_every_instant_retry tries _ (hg.withMiss miss) m hm plan s' hs'
+  exact ⟨fun o ho hc hd => hg'.noLeak o ho hc hd,
+    fun o1 h1 o2 h2 c1 d1 c2 d2 ha hne => hg'.obsUniq o1 h1 o2 h2 (hg'.noLeak o1 h1 c1 d1) (hg'.noLeak o2 h2 c2 d2) ha hne⟩
+
+/-- every finite history of faulty reconciles, each with its own plan, inputs and set of cache
+misses, the name generator retrying up to `tries` times in each -/
+theorem invariant_every_history_every_miss_set_retry (tries : Nat) (h : List (List Ref × Plan × Mode))
+    (hok : ∀ x ∈ h, ModeOK x.1 x.2.2) (s : St) (hg : Good s) :
+    ∀ s' ∈ reachRoundsT tries h s, Good s' :=
+  reachRoundsT_inv tries Good ModeOK (fun _ ms hs => hs.withMiss ms)
+    (fun s pl m hs hm => invariant_every_instant_retry tries s hs m hm pl) h hok s hg
+
+/-- quiescence of the function composer does not depend on the number of tries: no name is generated -/
+theorem quiescent_retry (tries : Nat) (s : St) (names : List Named) (h : Settled s names) (ch : Choices) (hc : ChOK ch)
+    (hv : ch.ver = s.refsVer) :
+    run sem Plan.allOk 0 (reconcileT tries (.fn (fun _ => .desired (names.map (·.d))) ch)) s = (s, some .success) :=
+  quiescent_fnT tries h ch hc hv
+
+/-- quiescence of the P&T composer, for every number of tries -/
+theorem quiescent_pt_retry (tries : Nat) (s : St) (tmpl : List Desired) (names : List String) (h : SettledPT s tmpl names)
+    (fresh : List String) (ver : String) (hv : s.refs = [] ∨ ver = s.refsVer)
+    (hcached : ∀ r ∈ s.refs, r ∉ s.miss) :
+    run sem Plan.allOk 0 (reconcileT tries (.pt tmpl fresh ver)) s = (s, some .success) :=
+  QuietPT.quiescent_ptT tries h fresh ver hv hcached
+
+/-- **A generated name is free in the cache.** The fault-free availability loop behaves as the pure
+function `probePure` of the store; when it hands a name `n` to the composer, `n` is one of the drawn
+candidates, fewer than `tries` candidates were drawn before it, each of those is the name of an
+object of that kind the cache shows, and the cache does not show `n`: no such object exists, or it
+is missing from the cache. When it gives up, `tries` candidates were all taken (or the candidates
+ran out); without a fault it never fails otherwise. -/
+theorem generated_name_free_in_cache (s : St) (kind : String) (tries : Nat) (fresh : List String)
+    (k : Probed → List String → P) :
+    run sem Plan.allOk 0 (probeName kind tries fresh k) s =
+      run sem Plan.allOk 0 (k (probePure s kind tries fresh).1 (probePure s kind tries fresh).2) s ∧
+    (∀ n rest, probePure s kind tries fresh = (.name n, rest) →
+      ∃ skipped, fresh = skipped ++ n :: rest ∧ skipped.length < tries ∧
+        (∀ x ∈ skipped, (⟨kind, x⟩ : Ref) ∉ s.miss ∧ (findObj s.objs kind x).isSome) ∧
+        ((⟨kind, n⟩ : Ref) ∈ s.miss ∨ findObj s.objs kind n = none)) ∧
+    (∀ rest, probePure s kind tries fresh = (.gaveUp, rest) →
+      ∃ skipped, fresh = skipped ++ rest ∧ (skipped.length = tries ∨ rest = []) ∧
+        (∀ x ∈ skipped, (⟨kind, x⟩ : Ref) ∉ s.miss ∧ (findObj s.objs kind x).isSome)) ∧
+    (probePure s kind tries fresh).1 ≠ .failed :=
+  ⟨runOk_probeName s kind k tries fresh, probePure_name tries fresh, probePure_gaveUp tries fresh,
+    probePure_not_failed tries fresh⟩
+
+/-- … and free in the store unless it is the name of an object missing from the cache: under
+`FreshAvoids` the name the loop hands over is carried by no object of that kind -/
+theorem generated_name_free_unless_missed (s : St) (kind : String) (tries : Nat) (fresh : List String)
+    (hfm : FreshAvoids s.miss fresh) (n : String) (rest : List String)
+    (h : probePure s kind tries fresh = (.name n, rest)) : findObj s.objs kind n = none := by
+  obtain ⟨sk, hsk, _, _, hl⟩ := probePure_name tries fresh n rest h
+  rcases hl with hm | hn
+  · exact absurd rfl (hfm n (by rw [hsk]; simp) ⟨kind, n⟩ hm)
+  · exact hn
+
+/-- **At most `tries` probes.** Under every fault plan one name generation issues at most `tries`
+API calls (cached Gets) — with `tries = maxTries` the "≤ 10 Gets" of the source -/
+theorem at_most_tries_probes (kind : String) (a : Probed → List String → Result) (tries : Nat)
+    (fresh : List String) (plan : Plan) (i : Nat) (s : St) :
+    calls sem plan i (probeName kind tries fresh fun p r => .ret (a p r)) s ≤ tries :=
+  probeName_calls_le kind a tries fresh plan i s
+
+/-! ### an outdated first read of the XR (lagging informer cache)
+
+`reconcileStaleT tries m fin rv refs` is the reconcile whose first read of the XR returned an EARLIER
+version (finalizer `fin`, resourceVersion `rv`, references `refs`) while the store has moved on;
+later reads and all writes see the store. The P&T composer persists the references with an
+`Update` that carries the resourceVersion it read, and so does `AddFinalizer`: decided from an
+outdated XR the reconcile writes no reference and creates nothing. The function composer persists
+them with a server-side apply that carries no resourceVersion: `stale_xr_read_fn_loses_reference_witness`
+(recorded finding D35, outside the property's quantifier). -/
+
+/-- **The rv-checked Update protects the references (P&T).** From a good store, for ANY templates,
+candidate names, cache misses, number of tries and fault plan, and any outdated version of the XR
+(its resourceVersion differs from the current one): at every instant of the reconcile the invariant
+holds, spec.resourceRefs, the XR's resourceVersion and finalizer are exactly what they were, and no
+object was created or modified — objects the outdated references point to may have been garbage
+collected (removed, or marked terminating), never one controlled by someone else. -/
+theorem stale_xr_read_pt_writes_no_reference (tries : Nat) (s : St) (hg : Good s) (tmpl : List Desired)
+    (fresh : List String) (ver : String) (fin : Bool) (rv : Nat) (refs : List Ref) (hrv : rv ≠ s.xrRv) (plan : Plan) :
+    ∀ s' ∈ reach sem plan 0 (reconcileStaleT tries (.pt tmpl fresh ver) fin rv refs) s,
+      Good s' ∧ s'.refs = s.refs ∧ s'.xrRv = s.xrRv ∧ s'.xrFin = s.xrFin ∧
+      (∀ o' ∈ s'.objs, ∃ o ∈ s.objs, key o' = key o ∧ (o'.deleting = false → o' = o)) ∧
+      (∀ o ∈ s.objs, o.ctrl = .other → o ∈ s'.objs) := by
+  intro s' hs'
+  have h := reach_safe sem (StaleInv s) plan 0 _ s (StaleInv.rfl' hg)
+    (safe_reconcileStaleT_pt hg tries tmpl fresh ver fin rv refs hrv) s' hs'
+  refine ⟨h.sh.good hg, h.sh.refs, h.rv, h.fin, ?_, h.sh.keepForeign⟩
+  intro o' ho'
+  obtain ⟨o, ho, hk, _, _, hd⟩ := h.sh.sub o' ho'
+  exact ⟨o, ho, hk, hd⟩
+
+/-- a "lagging" read that returns the current version is the ordinary reconcile -/
+theorem stale_read_of_current_version (tries : Nat) (m : Mode) (s : St) (plan : Plan) (k : Nat) :
+    run sem plan k (reconcileStaleT tries m s.xrFin s.xrRv s.refs) s = run sem plan k (reconcileT tries m) s := by
+  have hgx : sem.exec s .getXR = (s, .xr s.xrFin s.xrRv s.refs) := exec_getXR s
+  have hf : sem.errResp .fail .getXR = .err := rfl
+  have hc : sem.errResp .conflict .getXR = .err := rfl
+  unfold reconcileStaleT reconcileT
+  simp only [run, hgx, hf, hc]
+
+/-- the outdated version: no references yet, one resourceVersion behind -/
+def staleStore : St :=
+  { xrFin := true, xrRv := 4, refs := [⟨"KA", "xr-x"⟩],
+    objs := [⟨"KA", "xr-x", "a", .xr, false, false, 1, true⟩] }
+
+/-- **Without the resourceVersion check a reference is lost (function composer, D35).** The store
+holds the composed resource `xr-x` for "a", referenced; the reconcile is served the XR as it was
+before that reference was written (`refs = []`, resourceVersion 3 instead of 4). It observes nothing,
+generates `xr-y`, server-side applies the references `[xr-y]` — accepted, the apply carries no
+resourceVersion — and creates `xr-y`: `xr-x` is live, controlled by the XR and unreferenced, and
+"a" has two live resources. The same inputs through the P&T composer leave the store untouched
+(`stale_xr_read_pt_writes_no_reference`; here by evaluation). -/
+theorem stale_xr_read_fn_loses_reference_witness :
+    Good staleStore ∧
+    (∃ o ∈ (run sem Plan.allOk 0 (reconcileStaleT maxTries (.fn (fun _ => .desired [⟨"a", "KA", 1, true⟩]) ⟨"v1", ["xr-y"], id, id⟩) true 3 []) staleStore).1.objs,
+      o.ctrl = .xr ∧ o.deleting = false ∧
+      (⟨o.kind, o.name⟩ : Ref) ∉ (run sem Plan.allOk 0 (reconcileStaleT maxTries (.fn (fun _ => .desired [⟨"a", "KA", 1, true⟩]) ⟨"v1", ["xr-y"], id, id⟩) true 3 []) staleStore).1.refs) ∧
+    run sem Plan.allOk 0 (reconcileStaleT maxTries (.pt [⟨"a", "KA", 1, true⟩] ["xr-y"] "v1") true 3 []) staleStore = (staleStore, some .handled) := by
+  refine ⟨⟨by decide, by decide, by decide, ?_, by intro o h; cases h⟩, ?_, ?_⟩
+  · intro o1 h1 o2 h2 _ _ _ _
+    simp only [staleStore, List.mem_cons, List.mem_nil_iff, or_false] at h1 h2
+    rw [h1, h2]
+  · refine ⟨⟨"KA", "xr-x", "a", .xr, false, false, 1, true⟩, ?_, rfl, rfl, ?_⟩ <;>
+    simp [run, reconcileStaleT, recContT, composeFnT, observeFn, renderFnT, probeName, maxTries, gcFn, applyFn, refsOf, nkey,
+      wcall, finish, sem, exec, staleStore, findObj, obsLookup, obsInsert, mapObj, Plan.allOk, invalidContent,
+      List.mergeSort, List.MergeSort.Internal.splitInTwo, refLt]
+  · simp [run, reconcileStaleT, recContT, composePTT, associatePT, renderPTT, probeName, maxTries, assocLookup, wcall, onConflict,
+      sem, exec, staleStore, findObj, Plan.allOk]
+
+/-! ### regenerated call skeletons (tie to the source)
+
+`Xp.Gen.c01Skel*` are extracted with go/ast from the current tree on every run; the right-hand sides
+are declared in Model/C01.lean next to the definitions that mirror the functions, entry by entry. -/
+
+theorem skeleton_reconcile : Xp.Gen.c01SkelReconcile = skelReconcile := by decide
+theorem skeleton_handle_result : Xp.Gen.c01SkelHandleResult = skelHandleResult := by decide
+theorem skeleton_fn_compose : Xp.Gen.c01SkelFnCompose = skelFnCompose := by decide
+theorem skeleton_observe : Xp.Gen.c01SkelObserve = skelObserve := by decide
+theorem skeleton_gc : Xp.Gen.c01SkelGC = skelGC := by decide
+theorem skeleton_update_refs : Xp.Gen.c01SkelUpdateRefs = skelUpdateRefs ∧ Xp.Gen.c01RefsSortLess = skelRefsSortLess := by decide
+theorem skeleton_upgrade : Xp.Gen.c01SkelUpgrade = skelUpgrade := by decide
+theorem skeleton_pt_compose : Xp.Gen.c01SkelPTCompose = skelPTCompose := by decide
+theorem skeleton_associate : Xp.Gen.c01SkelAssociate = skelAssociate := by decide
+theorem skeleton_render_metadata : Xp.Gen.c01SkelRenderMeta = skelRenderMeta := by decide
+theorem skeleton_render_from_json : Xp.Gen.c01SkelRenderFromJSON = skelRenderFromJSON := by decide
+/-- the name generator: its calls, its retry bound and the shape of its loop -/
+theorem skeleton_generate_name :
+    Xp.Gen.c01SkelGenerateName = skelGenerateName ∧ Xp.Gen.c01NameMaxTries = maxTries ∧
+    Xp.Gen.c01NameLoop = "for range maxTries" := by decide
+
+/-- **References are persisted before any composed resource is created, and garbage collection runs
+before the references are rewritten** — read off the regenerated skeletons themselves (not the
+declared ones): in `FunctionComposer.Compose` the first `client.Patch` (the references) comes after
+`GarbageCollectComposedResources`/`UpdateResourceRefs` and before the second `client.Patch` (the
+apply loop); in `PTComposer.Compose` `client.Update` (the references) precedes the first
+`client.Apply`. -/
+theorem refs_persisted_before_apply_in_source :
+    (Xp.Gen.c01SkelFnCompose.filter fun c => c ∈ ["composite.GenerateName", "composite.GarbageCollectComposedResources", "UpdateResourceRefs", "client.Patch", "client.Status.Patch"]) =
+      ["composite.GenerateName", "composite.GarbageCollectComposedResources", "UpdateResourceRefs", "client.Patch", "client.Patch", "client.Status.Patch"] ∧
+    (Xp.Gen.c01SkelPTCompose.filter fun c => c ∈ ["composition.AssociateTemplates", "composed.GenerateName", "client.Update", "client.Apply", "client.Create", "client.Patch"]) =
+      ["composition.AssociateTemplates", "composed.GenerateName", "client.Update", "client.Apply", "client.Apply"] := by decide
+
+/-! ### the declared skeletons are what the model does
+
+`skel…A` (Model/C01.lean) annotate every skeleton entry with the API calls the mirroring model step
+issues on the designated full path. Their first components are the declared skeletons (hence, by
+`skeleton_*`, the regenerated ones), and their annotations, concatenated in source order with the
+callee skeletons inlined, are exactly the requests the model applies on that path. -/
+
+theorem annotated_skeletons_are_the_declared :
+    skelObserveA.map (·.1) = skelObserve ∧ skelGCA.map (·.1) = skelGC ∧ skelGenerateNameA.map (·.1) = skelGenerateName ∧
+    skelFnComposeA.map (·.1) = skelFnCompose ∧ skelAssociateA.map (·.1) = skelAssociate ∧
+    skelPTComposeA.map (·.1) = skelPTCompose ∧ (∀ c, (skelReconcileA c).map (·.1) = skelReconcile) := by
+  refine ⟨by decide, by decide, by decide, by decide, by decide, by decide, fun _ => rfl⟩
+
+/-- function composer: the calls of the model on its full path = the annotations of
+Reconcile ∘ FunctionComposer.Compose ∘ (ObserveComposedResources, GenerateName, GarbageCollect…) -/
+theorem model_path_matches_skeleton_fn :
+    (applied sem Plan.allOk 0 (reconcileT maxTries pathModeFn) (pathStore "KA")).map reqVerb =
+      stepsOf (skelReconcileA (stepsOf skelFnComposeA)) := by
+  simp [applied, reconcileT, recContT, pathModeFn, pathStore, composeFnT, observeFn, renderFnT, probeName, maxTries, gcFn,
+    applyFn, refsOf, nkey, wcall, finish, sem, exec, findObj, obsLookup, obsInsert, removeObj, Plan.allOk, invalidContent,
+    refLt, reqVerb, stepsOf, skelReconcileA, skelFnComposeA,
+    skelObserveA, skelGenerateNameA, skelGCA]
+
+/-- P&T composer: the same for Reconcile ∘ PTComposer.Compose ∘ (AssociateTemplates, GenerateName) -/
+theorem model_path_matches_skeleton_pt :
+    (applied sem Plan.allOk 0 (reconcileT maxTries pathModePT) (pathStore "KB")).map reqVerb =
+      stepsOf (skelReconcileA (stepsOf skelPTComposeA)) := by
+  simp [applied, reconcileT, recContT, pathModePT, pathStore, composePTT, associatePT, renderPTT, probeName, maxTries, applyPT,
+    assocLookup, rkey, wcall, finish, sem, exec, findObj, removeObj, Plan.allOk, invalidContent,
+    reqVerb, stepsOf, skelReconcileA, skelPTComposeA, skelAssociateA, skelGenerateNameA]
+
 /-! ### non-vacuity: the hypotheses are met by non-trivial states and inputs -/
 
 def settledStore : St :=
@@ -409,5 +644,41 @@ example : ModeOK [⟨"KA", "xr-abc"⟩] (.fn (fun obs => if (obsLookup obs "a").
 
 example : ModeOK [⟨"KA", "xr-abc"⟩, ⟨"KB", "xr-def"⟩] (.pt [⟨"a", "KA", 2, true⟩, ⟨"c", "KA", 0, false⟩] ["xr-new"]) :=
   ⟨⟨by decide, by decide⟩, by unfold FreshAvoids; decide⟩
+
+/-! ### the retry loop at work -/
+
+/-- `xr-abc` exists (for "a", kind KA) and the cache shows it; "c" (kind KA) needs a name -/
+def retryStore : St :=
+  { xrFin := true, xrRv := 2, refs := [⟨"KA", "xr-abc"⟩],
+    objs := [⟨"KA", "xr-abc", "a", .xr, false, false, 1, true⟩] }
+
+def retryOut : Obs → FnOut := fun _ => .desired [⟨"a", "KA", 1, true⟩, ⟨"c", "KA", 0, true⟩]
+
+/-- the generator first draws the taken name `xr-abc`, then `xr-new`: with `maxTries` tries the
+second candidate is probed and used; the composition succeeds -/
+example : applied sem Plan.allOk 0 (reconcileT maxTries (.fn retryOut ⟨"v1", ["xr-abc", "xr-new"], id, id⟩)) retryStore =
+    [.getXR, .getCached "KA" "xr-abc", .getCached "KA" "xr-abc", .getCached "KA" "xr-new",
+     .patchRefs "v1" [⟨"KA", "xr-abc"⟩, ⟨"KA", "xr-new"⟩],
+     .apply "KA" "xr-abc" "a" 1, .apply "KA" "xr-new" "c" 0, .statusPatch, .statusUpdate (some 3)] := by
+  simp [applied, reconcileT, recContT, composeFnT, observeFn, renderFnT, probeName, maxTries, gcFn, applyFn, refsOf, nkey, wcall, finish, sem, exec,
+    retryStore, retryOut, findObj, obsLookup, obsInsert, mapObj, Plan.allOk, invalidContent,
+    List.mergeSort, List.MergeSort.Internal.splitInTwo, refLt]
+
+/-- with ONE try (`reconcile`) the same inputs end in the error epilogue after the first probe -/
+example : applied sem Plan.allOk 0 (reconcile (.fn retryOut ⟨"v1", ["xr-abc", "xr-new"], id, id⟩)) retryStore =
+    [.getXR, .getCached "KA" "xr-abc", .getCached "KA" "xr-abc", .statusUpdate (some 2)] := by
+  simp [applied, reconcile, composeFn, observeFn, renderFn, onError, onErrorO, sem, exec,
+    retryStore, retryOut, findObj, obsLookup, obsInsert, Plan.allOk]
+
+/-- the hypotheses of the retry theorems are met by this store and these inputs -/
+example : Good retryStore ∧ probePure retryStore "KA" maxTries ["xr-abc", "xr-new"] = (.name "xr-new", []) := by
+  refine ⟨⟨by decide, by decide, by decide, ?_, by intro o h; cases h⟩, by decide⟩
+  intro o1 h1 o2 h2 _ _ _ _
+  simp only [retryStore, List.mem_cons, List.mem_nil_iff, or_false] at h1 h2
+  rw [h1, h2]
+
+/-- eleven taken candidates: the generator gives up after ten probes -/
+example : (probePure retryStore "KA" maxTries (List.replicate 11 "xr-abc")).1 = .gaveUp ∧
+    (probePure retryStore "KA" maxTries (List.replicate 11 "xr-abc")).2 = ["xr-abc"] := by decide
 
 end Xp.C01
